@@ -571,8 +571,12 @@ def run(prog, rep, tier):
             rows += split_phi_row(leaf)
     rows = [r for i_, r in enumerate(rows) if r not in rows[:i_]]
     ok = len(rows) == 2 and r_tuple in rows and (r_scalar in rows or r_scalar_f in rows)
-    rep.check("LAYOUT.producer", ok, fwhere(fp), "rows are [target, p0, p1] and [target, p, 0]: a scalar parameter means variance 0",
-              "row layout is %s, expected [target, params[0], params[1]] and [target, params, 0]" % [fmt(r) for r in rows])
+    plain = all(r[0] in ("list", "tuple") and len(r[1]) == 3 and not any(isinstance(x, tuple) and x[:1] == ("*",) for x in r[1]) for r in rows)
+    if not ok and (not rows or not plain):
+        rep.unk("LAYOUT.producer", fwhere(fp), "the rows are not written as three-element displays [target, ., .]: %s is not read" % [fmt(r)[:60] for r in rows][:2])
+    else:
+        rep.check("LAYOUT.producer", ok, fwhere(fp), "rows are [target, p0, p1] and [target, p, 0]: a scalar parameter means variance 0",
+                  "row layout is %s, expected [target, params[0], params[1]] and [target, params, 0]" % [fmt(r) for r in rows])
     loops = [li for li in Sp.loopinfo.values() if li["func"] == fp.qname]
     items_ = ("method", ("param", "interventions_dict"), "items", (), ())
     ok = (len(loops) == 1 and loops[0]["iter"] == items_) or (comp is not None and not loops and len(comp[3]) == 1 and comp[3][0][1] == items_ and not comp[3][0][2])
